@@ -31,6 +31,7 @@ import (
 	"unsafe"
 
 	"github.com/go-jose/go-jose/v4"
+	"gopkg.in/yaml.v3"
 
 	"github.com/dadrus/heimdall/internal/cache"
 	"github.com/dadrus/heimdall/internal/cache/memory"
@@ -258,6 +259,8 @@ var specs = []mechSpec{
 		{"expressions": []any{map[string]any{"expression": "Subject.ID == 'nobody'", "message": "only nobody may pass"}}},
 		{"expressions": []any{map[string]any{"expression": "Subject.ID == 'nobody'", "message": "tenant policy 7"}}},
 		{"expressions": []any{map[string]any{"expression": "Subject.ID != 'x'"}, map[string]any{"expression": "Subject.ID == 'nobody'"}}},
+		// the string helpers of the expression language on request data (evaluated per request)
+		{"expressions": []any{map[string]any{"expression": `Subject.ID.regexFind("^a[a-z]+") == "alice" && Subject.ID.regexFindAll("[aeiou]").size() == 3`}}},
 		// the address helpers of the expression language (evaluated per request)
 		{"expressions": []any{map[string]any{"expression": `"10.1.2.3" in networks("10.0.0.0/8") && Subject.ID != 'x'`}}},
 		{"expressions": []any{map[string]any{"expression": `["10.1.2.3", "192.168.1.1"].all(ip, ip in networks(["10.0.0.0/8", "192.168.0.0/16"]))`}}}}},
@@ -266,6 +269,7 @@ var specs = []mechSpec{
 		{"expressions": []any{map[string]any{"expression": "Payload.allow == 'never'", "message": "policy A"}}},
 		{"expressions": []any{map[string]any{"expression": "Payload.allow == 'never'", "message": "policy B"}}},
 		{"expressions": []any{map[string]any{"expression": `Payload.allow == false && "10.1.2.3" in networks("10.0.0.0/8")`}}},
+		{"expressions": []any{map[string]any{"expression": `Payload.allow == false && Subject.ID.regexFind("^a[a-z]+") == "alice"`}}},
 		{"expressions": []any{map[string]any{"expression": `Payload.allow == false && ["10.1.2.3"].all(ip, ip in networks(["10.0.0.0/8", "192.168.0.0/16"]))`}}},
 		{"forward_response_headers_to_upstream": []any{"X-Other"}}, {"cache_ttl": "9s"}, {"values": map[string]any{"a": "uno"}}, {"values": map[string]any{"c": "three"}}}},
 	{"contextualizer", "ctx", []map[string]any{
@@ -577,6 +581,51 @@ func signature1(n *simnet.Net, in *inst, hdrs map[string]string, cch cache.Cache
 // structDigest renders the heimdall-owned plain data reachable from a mechanism (strings, numbers, bools, durations and
 // slices / maps / structs / pointers of those, through types defined in heimdall's module). Foreign types (CEL programs,
 // text templates, keys, locks) are skipped: their internals may legitimately change (caches, lazy compilation).
+// cacheProfile: the number of remote calls of two identical executions on an own, empty cache
+func cacheProfile(n *simnet.Net, in *inst) string {
+	c, _ := memory.NewCache(nil, nil, nil)
+	c.Start(context.Background())
+	defer c.Stop(context.Background())
+	var counts []string
+	for i := 0; i < 2; i++ {
+		before := len(n.Calls(""))
+		in.exec(newCtx(c, probe))
+		counts = append(counts, fmt.Sprint(len(n.Calls(""))-before))
+	}
+	return strings.Join(counts, ",")
+}
+
+// mergedCatalogue returns the catalogue with the given top-level settings written into the entry itself.
+func mergedCatalogue(doc string, sp mechSpec, override map[string]any) (string, error) {
+	var root map[string]any
+	if err := yaml.Unmarshal([]byte(doc), &root); err != nil {
+		return "", err
+	}
+	mechs, _ := root["mechanisms"].(map[string]any)
+	list, _ := mechs[sp.kind+"s"].([]any)
+	found := false
+	for _, e := range list {
+		m, _ := e.(map[string]any)
+		if m["id"] != sp.id {
+			continue
+		}
+		cfg, _ := m["config"].(map[string]any)
+		if cfg == nil {
+			cfg = map[string]any{}
+		}
+		for k, v := range override {
+			cfg[k] = v
+		}
+		m["config"] = cfg
+		found = true
+	}
+	if !found {
+		return "", fmt.Errorf("no catalogue entry %s/%s", sp.kind, sp.id)
+	}
+	out, err := yaml.Marshal(root)
+	return string(out), err
+}
+
 func structDigest(v any) string {
 	var b strings.Builder
 	seen := map[uintptr]bool{}
@@ -825,6 +874,68 @@ func c17Sim(r *simcore.Run) {
 		}
 	}
 	fw.Close()
+
+	// ---- overlay reference: a variant created with plain top-level overrides (scalars which replace the catalogue's
+	// value as a whole) has to behave like the prototype of a catalogue whose entry carries those values itself - in
+	// its answers and in what it keeps in the cache
+	plain := map[string]bool{"cache_ttl": true, "ttl": true, "allow_fallback_on_error": true, "continue_pipeline_on_error": true, "payload": true, "claims": true, "subject": true}
+	compared := 0
+	for _, t := range live {
+		if len(t.in.override) == 0 || compared >= 2 {
+			continue
+		}
+		ok := true
+		var keys []string
+		for k, v := range t.in.override {
+			keys = append(keys, k)
+			switch v.(type) {
+			case string, bool:
+			default:
+				ok = false
+			}
+			if !plain[k] {
+				ok = false
+			}
+		}
+		if !ok {
+			continue
+		}
+		sort.Strings(keys)
+		merged, err := mergedCatalogue(catalogue(keep), t.in.spec, t.in.override)
+		if err != nil {
+			r.Fail("infra", "merged-catalogue", "%v", err)
+			return
+		}
+		ow, err := world.Build(world.Options{ConfigYAML: merged, Mode: config.DecisionMode, Cache: &noop.Cache{}})
+		if err != nil {
+			r.Count("overlay-reference-not-buildable", 1)
+			r.Logf("overlay reference for %s not buildable: %v", t.in.name(), err)
+			continue
+		}
+		ref, err := create(ow.Mechanisms, t.in.spec, nil)
+		if err != nil {
+			ow.Close()
+			r.Fail("infra", "overlay-prototype", "%v", err)
+			return
+		}
+		fc, _ := memory.NewCache(nil, nil, nil)
+		fc.Start(context.Background())
+		runCache = fc
+		got := signature(net, ref)
+		profRef, profVar := cacheProfile(net, ref), cacheProfile(net, t.in)
+		fc.Stop(context.Background())
+		ow.Close()
+		compared++
+		r.Count("overlay-references-compared", 1)
+		if got != t.sig {
+			r.Fail("differs-from-overlaid-catalogue-entry", t.in.spec.id+"/"+strings.Join(keys, "+"), "%s behaves differently from the prototype of a catalogue whose entry carries the same values:\n  variant:   %s\n  catalogue: %s", t.in.name(), t.sig, got)
+			return
+		}
+		if profRef != profVar {
+			r.Fail("differs-from-overlaid-catalogue-entry", t.in.spec.id+"/"+strings.Join(keys, "+")+"/cache-use", "%s uses the cache differently from the prototype of a catalogue whose entry carries the same values: remote calls of two identical executions %s, there %s", t.in.name(), profVar, profRef)
+			return
+		}
+	}
 
 	// ---- part 2: concurrent executions of prototypes and variants under the seeded scheduler and the race detector
 	mc, _ := memory.NewCache(nil, nil, nil)
